@@ -88,7 +88,7 @@ def convert : Stmt :=
 def main : Stmt :=
  (.seq (.call (.pure "np.seterr") ["divide='raise'", "over='raise'", "invalid='raise'"] "")
  (.seq (.call (.pure "parse_args") [] "args")
- (.call (.api "convert") ["args.input", "args.output", "args.many", "args.infmt", "args.outfmt"] "")))
+ (.call (.api "convert") ["args.input", "args.output", "args.many", "args.infmt", "args.outfmt", "args.allow_changes"] "")))
 
 def signatures : List (String × List String) :=
   [("_check_required", ["filename", "data", "dump_func"]),
